@@ -23,7 +23,7 @@ RULE = ("settings {127.0.0.1, 0.0.0.0} x free ports x endpoints; inputs: valid G
 ASSUMPTIONS = ["stock asyncio loop, real loopback sockets, real time; verdicts never depend on wall-clock deadlines: a response is awaited to EOF under a 5 s watchdog whose expiry makes the case inconclusive",
                "status codes are demanded only for well-formed requests delivered in one segment"]
 EVAL_COUNTER = "inputs_judged"
-REQUIRED = ["inputs_judged", "probes_ok", "wellformed_checked", "malformed_sent", "status_flips", "port_lifetime_checks", "jobs_completed", "shutdowns_with_lingering_connections"]
+REQUIRED = ["inputs_judged", "probes_ok", "wellformed_checked", "malformed_sent", "status_flips", "port_lifetime_checks", "jobs_completed", "shutdowns_with_lingering_connections", "idle_worker_probes"]
 CASE_TIMEOUT = 120
 
 
@@ -36,6 +36,7 @@ def gen_cases(tier, seed):
                       "fail_at": rnd.choice(["never", "start", "start", "middle", "middle", "end"]), "slow_start": rnd.choice([0, 0, 0.15, 0.3]), "ninputs": {"quick": 30, "thorough": 60}[tier], "end": rnd.choice(["signal", "signal", "cancel"]),
                       # connections a client keeps open while the worker stops: idle, half a request, a served one it never closes
                       "linger": rnd.sample(["idle", "partial", "idle", "binary", "slow_reader"], rnd.choice([0, 1, 2, 4]))})
+    cases.append({"type": "idle_worker", "seed": 1})
     return cases
 
 
@@ -158,6 +159,46 @@ def make_inputs(rnd, endpoint, n):
             out.append((k, "MANY", None))
     rnd.shuffle(out)
     return out
+
+
+async def idle_worker_scenario(case, out, stats, fps):
+    """Workers that have nothing to do (no router, a router without actors) or that fail on their way up: whenever run() is
+    over - returned or raised - nothing listens on the health port, not at that instant and not a moment later."""
+    from repid import Connection, Router, Worker
+    from repid.connections.in_memory.message_broker import InMemoryMessageBroker
+    from repid.health_check_server import HealthCheckServerSettings
+
+    good = b"GET /healthz HTTP/1.1\r\nHost: probe\r\n\r\n"
+    for variant in ("no_routers", "empty_router", "twice"):
+        conn = Connection(InMemoryMessageBroker())
+        await conn.connect()
+        port = free_port()
+        routers = [] if variant == "no_routers" else [Router(), Router()]
+        for round_ in range(2 if variant == "twice" else 1):
+            worker = Worker(routers=routers, run_health_check_server=True, handle_signals=[],
+                            health_check_server_settings=HealthCheckServerSettings(address="127.0.0.1", port=port), _connection=conn)
+            how_ended = "returned"
+            try:
+                await asyncio.wait_for(worker.run(), 10)
+            except asyncio.TimeoutError:
+                out.append(V("port_lifetime", f"idle-worker/{variant}", "a worker without actors did not return within 10 s"))
+                continue
+            except Exception as exc:  # noqa: BLE001
+                how_ended = f"raised {type(exc).__name__}"
+            for wait in (0.0, 0.05, 0.4):
+                await asyncio.sleep(wait)
+                stats["port_lifetime_checks"] += 1
+                stats["idle_worker_probes"] += 1
+                resp, how = await talk(port, [good], read_timeout=1.0)
+                if how != "refused":
+                    out.append(V("port_lifetime", f"idle-worker/{variant}", f"Worker.run() of a worker without actors {how_ended}; {wait}s later port {port} accepts connections and answers {status_of(resp) if resp else how}"))
+                    try:
+                        await worker.health_check_server.stop()
+                    except Exception:  # noqa: BLE001
+                        pass
+                    break
+        fps.add(f"idle-worker/{variant}")
+        await conn.disconnect()
 
 
 async def scenario(case, out, stats, fps, samples, incon):
@@ -434,7 +475,10 @@ def run_case(case):
     out, fps, samples, incon = [], set(), [], []
     t0 = time.perf_counter()
     try:
-        asyncio.run(scenario(case, out, stats, fps, samples, incon))
+        if case.get("type") == "idle_worker":
+            asyncio.run(idle_worker_scenario(case, out, stats, fps))
+        else:
+            asyncio.run(scenario(case, out, stats, fps, samples, incon))
     except Exception as exc:  # noqa: BLE001
         import traceback
 
